@@ -157,6 +157,7 @@ class Elab:
         self.overrides = dict(overrides or {})     # Sym path -> V
         self.hasattrs = dict(hasattrs or {})       # "path.attr" -> bool
         self.design = Design()
+        self.cls_dyn = {}                          # id(ClassV) -> {attr: value} set at elaboration time
         self.cfg = []                              # configuration context stack [(key, polarity, term)]
         self.depth = 0                             # inlining depth inside the current instance method
         self.inst_stack = []                       # [Obj]
@@ -427,6 +428,14 @@ class Elab:
                 return ra
             return Op("phi", (c, ra, rb))
         if isinstance(base, ClassV):
+            dyn = self.cls_dyn.get(id(base), {})
+            if attr in dyn:
+                return dyn[attr]
+            if attr == "__dict__":
+                d = DictV()
+                for k in list(base.consts) + list(base.methods) + list(dyn):
+                    d.set(Const(k), Const(True))
+                return d
             c = self.find_class_const(base, attr)
             if c is not None:
                 return c
@@ -696,6 +705,13 @@ class Elab:
         b = self.ev(n.orelse, env)
         if veq(a, b):
             return a
+        # `1 if c else 0` is c itself as a 0/1 value (and `0 if c else 1` its negation) when c is a comparison
+        if isinstance(c, Op) and c.op in ("==", "!=", "<", "<=", ">", ">=", "is", "isnot") and isinstance(a, Const) and isinstance(b, Const) \
+                and not isinstance(a.v, bool) and not isinstance(b.v, bool):
+            if a.v == 1 and b.v == 0:
+                return c
+            if a.v == 0 and b.v == 1:
+                return Op("==", (c, Const(0)))
         return Op("ifexp", (c, a, b))
 
     def ev_Tuple(self, n, env):
@@ -1504,6 +1520,8 @@ class Elab:
             if name == "print":
                 return Const(None)
             if name == "type" and len(a) == 1:
+                if isinstance(a[0], Obj) and isinstance(getattr(a[0], "clsv", None), ClassV):
+                    return a[0].clsv
                 return Op("type", tuple(a))
             if name == "id" or name == "repr":
                 return Op(name, tuple(a))
@@ -1729,6 +1747,14 @@ class Elab:
             final = None
         except _Return as r:
             final = r.v
+        except _Dead:
+            # the fall-through path raises: the function returns one of the values returned under a condition
+            if not pending:
+                raise
+            final = pending[-1][1]
+            pending = pending[:-1]
+            if not pending:
+                return final
         if pending:
             res = final if final is not None else Const(None)
             for c, v in reversed(pending):
@@ -1856,6 +1882,8 @@ class Elab:
                 return
             if isinstance(base, Obj):
                 self.setattr(base, target.attr, v)
+            elif isinstance(base, ClassV):
+                self.cls_dyn.setdefault(id(base), {})[target.attr] = v      # class-level cache set at run time (per elaboration)
             elif isinstance(base, Op) and base.op == "phi":
                 for b in base.args[1:]:
                     if isinstance(b, Obj):
